@@ -499,6 +499,9 @@ func run(r *mon.Run) {
 						nm = http.CanonicalHeaderKey(n)
 					}
 					c.reqHeaders[nm] = []string{"v"}
+					if k == 3 {
+						c.reqHeaders[nm] = []string{} // a field present without any value line is still that field (it is signed as name: "")
+					}
 					if k >= 2 {
 						if !strings.EqualFold(n, "accept") {
 							c.reqHeaders["Accept"] = []string{"*/*"}
@@ -528,6 +531,9 @@ func run(r *mon.Run) {
 					nm = n
 				}
 				c.respHeaders[nm] = []string{"v"}
+				if k == 3 {
+					c.respHeaders[nm] = []string{} // a field present without any value line is still that field (it is signed as name: "")
+				}
 				if k >= 2 {
 					c.respHeaders["X-Harmless"] = []string{"1"}
 					c.respHeaders["etag"] = []string{"\"x\""}
